@@ -370,31 +370,24 @@ func (c *CharSet) prepareASCIIBitmap() {
 }
 
 func (c *CharSet) charInCategories(ch rune) bool {
+	// the categories of a class are a union: the character is in when it is in any
+	// positive category or outside any negated one
 	for _, ct := range c.categories {
+		var in bool
 		// special categories...then unicode
-		if ct.Cat == SpaceCategoryText {
-			if unicode.IsSpace(ch) {
-				// we found a space so we're done
-				// negate means this is a "bad" thing
-				return !ct.Negate
-			} else if ct.Negate {
-				return true
-			}
-		} else if ct.Cat == WordCategoryText {
-			if IsWordChar(ch) {
-				return !ct.Negate
-			} else if ct.Negate {
-				return true
-			}
-		} else if unicode.Is(unicodeCategories[ct.Cat], ch) {
-			// if we're in this unicode category then we're done
-			// if negate=true on this category then we "failed" our test
-			// otherwise we're good that we found it
-			return !ct.Negate
-		} else if ct.Negate {
+		switch ct.Cat {
+		case SpaceCategoryText:
+			in = unicode.IsSpace(ch)
+		case WordCategoryText:
+			in = IsWordChar(ch)
+		default:
+			in = unicode.Is(unicodeCategories[ct.Cat], ch)
+		}
+		if in != ct.Negate {
 			return true
 		}
 	}
+
 	return false
 }
 
@@ -697,7 +690,7 @@ func (c *CharSet) addCategory(categoryName string, negate, caseInsensitive bool)
 
 	}
 
-	if caseInsensitive && (categoryName == "Ll" || categoryName == "Lu" || categoryName == "Lt") {
+	if caseInsensitive && !negate && (categoryName == "Ll" || categoryName == "Lu" || categoryName == "Lt") {
 		// when RegexOptions.IgnoreCase is specified then {Ll} {Lu} and {Lt} cases should all match
 		c.addCategories(
 			Category{Cat: "Ll", Negate: negate},
